@@ -22,10 +22,18 @@
       (node.prev/next/prevInPage/nextInPage, header.prev/next/freeList, lists/firstPage/lastPage — written by
       exactly the link writes of the Go code, the back-links being present iff the regenerated facts
       `Gen.MemClasses.lnk*` say the source has them) spells exactly the abstract lists.
+  The step granularity itself — "one Malloc / Free call = one atomic step" — is a checked source fact too:
+  go/cmd/gen_c20/locks.go extracts from Malloc and Free the expression that selects the class whose mutex is
+  locked and the expression(s) that select the class whose lists / pages / counters are edited
+  (`Gen.MemClasses.mallocLockSel`, `mallocEditSel`, `freeLockSel`, `freeEditSel`, `…LockBrackets`);
+  `malloc_locks_own_class` / `free_locks_own_class` prove from these terms that the locked class is the edited
+  class and is the class the model's step edits.  A source that locks by another expression (e.g.
+  `getSizeClass(sh.Cap)` in Free) regenerates another term and these theorems no longer compile.
 -/
 import GocoinV.Proofs.C20Once
 import GocoinV.Proofs.C20Ptr
 import GocoinV.Proofs.C20Count
+import GocoinV.Proofs.C20Lock
 namespace GocoinV.Props.C20
 open GocoinV.Alloc GocoinV.Gen.MemClasses
 
@@ -77,8 +85,9 @@ theorem step_inv {V : Type} (s s' : State V) (op : Op V) (inv : Inv s) (hr : ste
 
 /-- Central invariant: every state reached from the empty allocator by any sequence of Malloc, Free of
 live pointers, owner writes and defragmentation passes (= any interleaving of such calls from any number
-of goroutines, each Malloc/Free being one atomic step under the class mutex, defrag running exclusively)
-satisfies `Inv` (listed at the top of this file): live slots are distinct slots below brk of mapped
+of goroutines, each Malloc/Free being one atomic step under the mutex of the class it edits — a source fact
+re-extracted on every run, see `malloc_locks_own_class` / `free_locks_own_class` below —, defrag running
+exclusively) satisfies `Inv` (listed at the top of this file): live slots are distinct slots below brk of mapped
 pages, returned slices have Len = size, Cap ≥ size, Data = slot + header, free lists hold exactly the
 non-live slots, the counters equal the counted values, Allocs = number live. -/
 theorem alloc_inv {V : Type} (ops : List (Op V)) (s : State V) (hr : run init ops = .ok s) : Inv s := by
@@ -398,5 +407,61 @@ theorem counters_step {V : Type} (s s' : State V) (op : Op V) (inv : Inv s) (cn 
     (hr : step s op = .ok s') : Cnt s' := step_cnt inv cn hr
 
 example : Cnt (init : State Nat) := init_cnt
+
+/-! ### the per-class mutex is the mutex of the class that is edited (checked source fact) -/
+
+/-- Malloc on the shared path locks the mutex OF THE CLASS IT EDITS.  `mallocLockSel` is the index expression
+of the single `a.classMu[…].Lock()` in Malloc, `mallocEditSel` the index expression of every per-class slice
+access of Malloc and of the methods it calls (linkSharedPage, uintptrMallocShared), both regenerated from
+malloc.go on every run; `mallocLockBrackets` says all those accesses lie between Lock() and Unlock().  Both
+terms denote the same class c, and c is exactly the class on which the model's Malloc step operates
+(`allocLive … c`), so treating the call as one atomic step of class c (as `alloc_inv` and every op-sequence
+theorem of this file does) is justified by the source, not by prose. -/
+theorem malloc_locks_own_class {V : Type} (s : State V) (size : Nat) (h : size + sliceHdrLen ≤ maxShared) :
+    mallocLockBrackets = true ∧
+    ∃ c, c < nClasses ∧ selMalloc mallocLockSel size = some c ∧ selMalloc mallocEditSel size = some c ∧
+      malloc s size = allocLive { s with allocs := s.allocs + 1 } c size (slotSize c - sliceHdrLen) none :=
+  ⟨by decide, _, (classOf_spec _ h).1, selMalloc_good (by decide) size h, selMalloc_good (by decide) size h,
+   malloc_shared_eq s size h⟩
+
+/-- Free of a live shared allocation locks the mutex OF THE CLASS IT EDITS.  `freeLockSel` is the index
+expression of the `a.classMu[…].Lock()` in Free, `freeEditSel` the index expression of every per-class slice
+access of uintptrFreeShared (regenerated from free.go on every run), `freeLockBrackets` says the call of
+uintptrFreeShared lies between Lock() and Unlock().  In every reachable state (`Inv`) both terms denote the
+class byte `h.cls` of the header of the page holding the slot; the model's Free step is `freeSlot … h`, which
+edits the lists and counters of class `h.cls` and leaves every other class's state alone.  The proof accepts
+the two selection terms known to be right (the page header's class byte, or `getSizeClass(Cap + sliceHdrLen)`
+— by `Inv` a live slot's Cap + 24 is its class's slot size and `classOf_slotSize`); for any other term, e.g.
+`getSizeClass(Cap)` (which is a different class for some slots: `classOf_cap_differs`), it does not compile. -/
+theorem free_locks_own_class {V : Type} (s : State V) (inv : Inv s) (p i : Nat) (hl : s.isLive (.sh p i)) :
+    freeLockBrackets = true ∧
+    ∃ h, s.pages.get? p = some h ∧ h.cls < nClasses ∧
+      selFree freeLockSel s (.sh p i) = some h.cls ∧ selFree freeEditSel s (.sh p i) = some h.cls ∧
+      free s (.sh p i) =
+        .ok (freeSlot { s with allocs := s.allocs - 1, live := s.live.del (.sh p i) } p i h) ∧
+      ∀ c, c ≠ h.cls →
+        (freeSlot { s with allocs := s.allocs - 1, live := s.live.del (.sh p i) } p i h).K c = s.K c := by
+  simp only [State.isLive] at hl
+  cases hq : s.live.get? (.sh p i) with
+  | none => simp [hq] at hl
+  | some l =>
+    obtain ⟨h, g1, g2, g3⟩ := selFree_good (e := freeLockSel) (by decide) inv hq
+    obtain ⟨h', g1', _, g3'⟩ := selFree_good (e := freeEditSel) (by decide) inv hq
+    obtain ⟨h'', g1'', g4⟩ := free_shared_eq inv hq
+    rw [g1] at g1' g1''; cases g1'; cases g1''
+    exact ⟨by decide, h, g1, g2, g3, g3', g4, fun c hc => freeSlot_other _ p i h c hc⟩
+
+example : (10 : Nat) + sliceHdrLen ≤ maxShared := by decide
+example : ∃ (s : State Nat) (p i : Nat), Inv s ∧ s.isLive (.sh p i) := by
+  obtain ⟨s', a, h⟩ := malloc_total (init_inv (V := Nat)).g 10
+  have i1 := malloc_inv init_inv h
+  have hl : s'.isLive a := by simp [State.isLive, i1.2.2, KMap.get?_set]
+  have h2 := h
+  rw [malloc_shared_eq _ _ (by decide)] at h2
+  unfold allocLive at h2
+  simp only [] at h2
+  split at h2
+  · cases h2
+  · cases h2; exact ⟨_, _, _, i1.1, hl⟩
 
 end GocoinV.Props.C20
